@@ -363,8 +363,108 @@ func targetsFor(t *value.Type, a value.Value, rich bool) []reflect.Type {
 			}
 		}
 		add(reflect.PtrTo(mk(def)))
+		if t.ID == value.UDT {
+			// structs that do not have every field of the UDT ("skip fields which exist in the UDT but not in the
+			// struct"): every non-empty proper subset of the fields omitted in turn - first, middle, last, several.
+			// Being ordinary members of this list they also occur nested: as the element of a list/set, the value
+			// and the key of a map, and a field of an enclosing UDT struct.
+			oms := omitStructs(t, def)
+			for _, st := range oms {
+				add(st)
+			}
+			if len(oms) > 0 && rich {
+				add(reflect.PtrTo(oms[0])) // holder **struct
+			}
+		}
 	}
 	return out
+}
+
+// omitStructs lists, for a UDT with n fields, the 2^n-2 tagged struct types that keep a non-empty proper subset
+// of the fields (kept field i has Go type types[i]).
+func omitStructs(t *value.Type, types []reflect.Type) []reflect.Type {
+	n := len(t.Elems)
+	var out []reflect.Type
+	for mask := 1; mask < (1<<uint(n))-1; mask++ { // bit i set = field i omitted
+		var fields []reflect.StructField
+		for i := 0; i < n; i++ {
+			if mask&(1<<uint(i)) == 0 {
+				fields = append(fields, reflect.StructField{Name: fieldNames[i], Type: types[i], Tag: reflect.StructTag(fmt.Sprintf(`cql:"%s"`, t.Names[i]))})
+			}
+		}
+		out = append(out, reflect.StructOf(fields))
+	}
+	return out
+}
+
+// structOmitsField: gt (pointers stripped) is a struct target/source for the UDT t that lacks at least one of t's fields.
+func structOmitsField(t *value.Type, gt reflect.Type) bool {
+	for gt.Kind() == reflect.Ptr {
+		gt = gt.Elem()
+	}
+	if t.ID != value.UDT || gt.Kind() != reflect.Struct || gt == tUdtM || gt == tUdtU {
+		return false
+	}
+	for _, n := range t.Names {
+		if udtFieldIndex(gt, n) < 0 {
+			return true
+		}
+	}
+	return false
+}
+
+// omitsUDTField: somewhere inside the Go type gt bound to t, a UDT goes into a struct that lacks one of its fields.
+func omitsUDTField(t *value.Type, gt reflect.Type) bool {
+	for gt.Kind() == reflect.Ptr {
+		gt = gt.Elem()
+	}
+	if len(t.Elems) == 0 || gt.Kind() == reflect.Interface {
+		return false
+	}
+	if structOmitsField(t, gt) {
+		return true
+	}
+	for i := range t.Elems { // list/set: the element; map: key, value; tuple/UDT: every component
+		ct := t.Elems[i]
+		kgt := kidTargetTypeStatic(t, gt, i)
+		if kgt != nil && kgt.Kind() != reflect.Interface && omitsUDTField(ct, kgt) {
+			return true
+		}
+	}
+	return false
+}
+
+// kidTargetTypeStatic is kidTargetType without the replacement of interface{} by gocql's default type.
+func kidTargetTypeStatic(t *value.Type, gt reflect.Type, i int) reflect.Type {
+	switch t.ID {
+	case value.List, value.Set:
+		if gt.Kind() == reflect.Slice || gt.Kind() == reflect.Array {
+			return gt.Elem()
+		}
+	case value.Map:
+		if gt.Kind() == reflect.Map {
+			if i == 0 {
+				return gt.Key()
+			}
+			return gt.Elem()
+		}
+	case value.Tuple:
+		switch gt.Kind() {
+		case reflect.Slice, reflect.Array:
+			return gt.Elem()
+		case reflect.Struct:
+			if i < gt.NumField() {
+				return gt.Field(i).Type
+			}
+		}
+	case value.UDT:
+		if gt.Kind() == reflect.Struct && gt != tUdtU && gt != tUdtM {
+			if fi := udtFieldIndex(gt, t.Names[i]); fi >= 0 {
+				return gt.Field(fi).Type
+			}
+		}
+	}
+	return nil
 }
 
 // ---------------------------------------------------------------------------
@@ -632,4 +732,17 @@ func guarded(r *report.Run, tc TypeCase, f func()) {
 		}
 	}()
 	f()
+}
+
+// omitCached memoises omitsUDTField per Go type (one memo per type tree).
+func omitCached(memo map[reflect.Type]bool, t *value.Type, gt reflect.Type) bool {
+	if gt == nil {
+		return false
+	}
+	v, ok := memo[gt]
+	if !ok {
+		v = omitsUDTField(t, gt)
+		memo[gt] = v
+	}
+	return v
 }
